@@ -10,6 +10,8 @@ body producer is a scripted fake (synchronous, or finishing after writeTo return
 records.  The emitted text is cut by the reference tokenizer of props/c20.py (CRLF, lone CR and lone LF
 all end a line) and compared with the request that was asked for.
 """
+import re as _re
+
 from twisted.internet.defer import Deferred, succeed
 from twisted.web import _newclient as _real
 from twisted.web.iweb import UNKNOWN_LENGTH
@@ -30,25 +32,25 @@ ENCODED = ["twisted.web._newclient:Request.__init__", "twisted.web._newclient:Re
            "twisted.web._newclient:ChunkedEncoder", "twisted.web._newclient:LengthEnforcingConsumer",
            "twisted.web._abnf:_istoken", "twisted.web.http_headers:Headers.addRawHeader",
            "twisted.web.http_headers:Headers.getRawHeaders", "twisted.web.http_headers:Headers.getAllRawHeaders"]
-BOUNDS = {"quick": {"m": 2, "ml": 2, "u": 3, "hv": 2, "bw": 2, "n": 4},
-          "thorough": {"m": 3, "ml": 2, "u": 4, "hv": 3, "bw": 3, "n": 6}}
+BOUNDS = {"quick": {"m": 3, "m3all": 0, "ml": 2, "u": 3, "hv": 2, "bw": 2, "n": 4},
+          "thorough": {"m": 3, "m3all": 1, "ml": 3, "u": 5, "hv": 3, "bw": 3, "n": 6}}
 B = {}
-BOUNDS_TEXT = ("method of <= m bytes given to the constructor (<= ml bytes when assigned to the attribute "
-               "afterwards), request target of <= u bytes (both ways, persistent or not, method GET/PUT/POST), both symbolic with 1 "
+BOUNDS_TEXT = ("method of <= m bytes given to the constructor (quick tier: 3-byte methods only with a first byte "
+               "in 0x41..0x5d = A-Z[\\]; <= ml bytes when assigned to the attribute afterwards), request target of <= u bytes (both ways, persistent or not, method GET/PUT/POST), both symbolic with 1 "
                "byte each; one header value of <= hv bytes and 0/1/2 Host headers; body: none / declared length "
                "0..n with 2 producer writes of <= bw symbolic bytes each (equal, too short, too long) / unknown "
-               "length (chunked) with 2 writes of 1..bw bytes; producer finishing inside startProducing or "
+               "length (chunked) with 2 writes of 0..bw bytes, the first optionally followed by 10 fixed bytes; producer finishing inside startProducing or "
                "after writeTo returned")
 OUTSIDE = ["h11 (or any third-party parser) as the oracle: the reference tokenizer is the one in props/c20.py",
            "header NAMES are concrete (Host, X-A); Headers' own name validation is C20",
-           "a body producer that writes an EMPTY bytes object to the chunked encoder (see the finding in the "
-           "report: ChunkedEncoder.write(b'') emits the terminating chunk); pieces are 1..bw bytes there",
            "producers that fail (errback) or are cancelled, pause/resume, more than two writes",
            "HTTP11ClientProtocol's state machine around writeTo (C23), Agent's header synthesis (Host etc.)"]
 ASSUMPTIONS = ["LBytes reproduces bytes semantics for the operations used (vlib.lbytes.selftest on every run); the "
                "lifted code agrees with the real code on the concrete vectors below",
                "the regular expression of _ensureValidURI is the real pattern, run through CrossHair's symbolic "
-               "regex model (re.ASCII text pattern over latin-1 text)",
+               "regex model (re.ASCII text pattern over latin-1 text); a pattern ending in a non-MULTILINE '$' "
+               "(not the real one) is run as P\\Z on the subject and on the subject minus a final newline, because "
+               "CrossHair 0.0.110 does not model that '$' also matches before a final newline",
                "the fake producer follows IBodyProducer: writes from startProducing (or later), returns a "
                "Deferred that it fires once; the fake transport records write/writeSequence/registerProducer/"
                "unregisterProducer"]
@@ -56,10 +58,63 @@ EXPLANATION = ("lifted real client Request/encoders on symbolic method, target, 
                "output cut by a lenient reference tokenizer and compared with the request asked for")
 
 LA, LH, Headers = K.LA, K.LH, K.Headers
+
+
+class _Pattern(lbytes._LPattern):
+    """CrossHair 0.0.110 models a non-MULTILINE `$` as "end of string" only, while CPython also lets it
+    match just before a final newline (the classic way a target like b'/\\n' slips through a validator).
+    The real pattern uses \\Z and needs none of this; so that a tree whose pattern ends in `$` is still
+    judged correctly, such a pattern P$ is run as P\\Z on the subject and on the subject minus one final
+    newline.  Any other use of `$` is refused rather than mis-modelled."""
+
+    def __init__(self, pat, flags=0):
+        lbytes._LPattern.__init__(self, pat, flags)
+        txt = pat if isinstance(pat, str) else lbytes._s(pat)
+        self.alt = None
+        if "$" in txt:
+            if (flags & _re.M) or txt.count("$") != 1 or not txt.endswith("$") or txt.endswith("\\$") or "(?m" in txt:
+                raise NotImplementedError("'$' other than as the last element of a pattern")
+            alt = txt[:-1] + "\\Z"
+            self.alt = lbytes._LPattern(alt if isinstance(pat, str) else lbytes.LBytes(alt), flags)
+
+    def match(self, x, *a):
+        if self.alt is None:
+            return lbytes._LPattern.match(self, x, *a)
+        r = self.alt.match(x, *a)
+        if r is not None:
+            return r
+        xs = self._in(x)
+        n = len(xs)
+        if n > 0 and xs[n - 1] == "\n":
+            return self.alt.match(x[:n - 1], *a)
+        return None
+
+    def _refuse(self, *a, **k):
+        raise NotImplementedError("only match() is modelled for a pattern ending in '$'")
+
+    def search(self, x, *a):
+        return self._refuse() if self.alt is not None else lbytes._LPattern.search(self, x, *a)
+
+    def fullmatch(self, x, *a):
+        return self._refuse() if self.alt is not None else lbytes._LPattern.fullmatch(self, x, *a)
+
+
+class l_re24(lbytes.l_re):
+    Pattern = _Pattern
+
+    @staticmethod
+    def compile(pat, flags=0):
+        return _Pattern(pat, flags)
+
+    @staticmethod
+    def match(pat, x, flags=0):
+        return _Pattern(pat, flags).match(x)
+
+
 L = lift.lift("twisted.web._newclient",
               names=["Request", "_ensureValidMethod", "_ensureValidURI", "_VALID_URI", "ChunkedEncoder",
                      "LengthEnforcingConsumer"],
-              overrides={"_istoken": LA._istoken, "Headers": Headers}, use_re=True)
+              overrides={"_istoken": LA._istoken, "Headers": Headers}, use_re=True, extra_shims={"re": l_re24})
 
 WrongBodyLength = _real.WrongBodyLength
 ExcessWrite = _real.ExcessWrite
@@ -250,6 +305,7 @@ def req_method(method: str, late: bool) -> bool:
     """
     pre: len(method) <= B['m'] and all_latin1(method)
     pre: not late or len(method) <= B['ml']
+    pre: len(method) < 3 or B['m3all'] == 1 or 'A' <= method[0] < '^'
     post: _
     """
     mc = chars_of(method, B['m'])
@@ -375,13 +431,19 @@ def body_known(w1: str, w2: str, n: int, deferred: bool, late2: bool) -> bool:
     return check_request(tr, list("PUT"), list("/up"), exp, fwd, False)
 
 
-def body_chunked(w1: str, w2: str, deferred: bool, late2: bool) -> bool:
+PAD = "0123456789"
+
+
+def body_chunked(w1: str, w2: str, deferred: bool, late2: bool, pad: bool) -> bool:
     """
-    pre: 1 <= len(w1) <= B['bw'] and 1 <= len(w2) <= B['bw'] and all_latin1(w1 + w2)
+    pre: len(w1) <= B['bw'] and len(w2) <= B['bw'] and all_latin1(w1 + w2)
     pre: deferred or not late2
     post: _
     """
     c1, c2 = chars_of(w1, B['bw']), chars_of(w2, B['bw'])
+    if pad:
+        # a first piece of 10..12 bytes: the chunk size needs a hexadecimal letter
+        c1 = c1 + list(PAD)
     p1, p2 = b(text_of(c1)), b(text_of(c2))
     prod = Producer(UNKNOWN_LENGTH, [p1] if late2 else [p1, p2], [p2] if late2 else [], deferred)
     tr = Rec()
@@ -405,12 +467,18 @@ def body_chunked(w1: str, w2: str, deferred: bool, late2: bool) -> bool:
     return check_request(tr, list("POST"), list("/up"), exp, c1 + c2, True)
 
 
+# the first character of a 3-byte method by token-character class (the validity check forks ~19 ways
+# per character): one shard per one or two classes
+_FIRST = ["method[0] < '*'", "'*' <= method[0] < '0'", "'0' <= method[0] < 'A'", "'A' <= method[0] < '^'",
+          "'^' <= method[0] < '|'", "'|' <= method[0]"]
+
 HARNESSES = [
     H(req_method, shards=lambda tier: [("len(method) == %d" % n, "late == %s" % x)
-                                       for n in range(3) for x in (False, True) if not x or n <= BOUNDS[tier]["ml"]] +
-                                      [("len(method) == %d" % n, "late == %s" % x, "method[0] %s '@'" % op)
-                                       for n in range(3, BOUNDS[tier]["m"] + 1) for x in (False, True)
-                                       if not x or n <= BOUNDS[tier]["ml"] for op in ("<", ">=")],
+                                       for n in range(3) for x in (False, True)] +
+                                      [("len(method) == 3", "late == %s" % x, rng, "method[1] %s '@'" % op)
+                                       for x in (False, True) if not x or BOUNDS[tier]["ml"] >= 3
+                                       for rng in (_FIRST if BOUNDS[tier]["m3all"] else _FIRST[3:4])
+                                       for op in ("<", ">=")],
       timeout={"quick": 90, "thorough": 1500}),
     H(req_target, shards=lambda tier: [("len(uri) == %d" % n, "late == %s" % x)
                                        for n in range(BOUNDS[tier]["u"] + 1) for x in (False, True)],
@@ -426,7 +494,7 @@ HARNESSES = [
 # several of these are the requests of twisted/web/test/test_newclient.py RequestTests (sendSimplestRequest,
 # sendRequestBodyWithLength, sendChunkedRequestBody, sendRequestBodyWithTooFewBytes / TooManyBytes)
 VECTORS = {
-    "req_method": [("GE", False), ("PU", False), ("G ", False), ("", False), ("a\r", True), ("ab", True),
+    "req_method": [("GET", False), ("PUT", False), ("G T", False), ("GE\n", False), ("", False), ("a\r", True), ("ab", True),
                    ("\xe9", False), ("(", True), ("~!", True), ("G\n", False), ("\x7f", False)],
     "req_target": [("/", False, False, 0), ("/a", True, True, 1), ("/ b", False, True, 2), ("", True, False, 0),
                    ("/\n", False, False, 1), ("\x7f", True, True, 2), ("/\xe9", False, True, 0), ("*", False, False, 2),
@@ -436,9 +504,17 @@ VECTORS = {
     "body_known": [("ab", "c", 3, False, False), ("ab", "c", 3, True, True), ("ab", "c", 4, False, False),
                    ("ab", "c", 2, True, False), ("ab", "cd", 1, True, True), ("", "", 0, False, False),
                    ("\r\n", "\x00", 3, True, True), ("a", "bc", 2, False, False), ("", "x", 0, True, True)],
-    "body_chunked": [("ab", "c", False, False), ("ab", "c", True, True), ("\r\n", "0", True, False), ("\xff", "\x00", True, True)],
+    "body_chunked": [("", "x", False, False, False), ("a", "", True, True, False), ("", "", True, False, False), ("ab", "c", False, False, True), ("ab", "c", True, True, True), ("\r\n", "0", True, False, False), ("\xff", "\x00", True, True, True)],
 }
 
 
 def selftest():
-    return K.selftest()
+    n = K.selftest()
+    alpha = ["", "/", "a", " ", "\n", "\r", "\x00", "\x7f", "\x80", "\xff", "~", "!", "\x20", "\x21", "\x7e", "$"]
+    for p in ("\\A[\\x21-\\x7e]+\\Z", "\\A[\\x21-\\x7e]+$", "[\\x21-\\x7e\\n]+$", "^a*$"):
+        rp = _re.compile(p.encode("latin-1"))
+        lp = _Pattern(lbytes.LBytes(p))
+        for x in [a + c + d for a in alpha for c in alpha for d in ("", "\n", "/")]:
+            assert (rp.match(x.encode("latin-1")) is None) == (lp.match(lbytes.LBytes(x)) is None), (p, x)
+            n += 1
+    return n
